@@ -26,3 +26,16 @@ add("C06",
     "DESIGN.md 3/C06")
 for _p in ("C05", "C06"):
     NOT_APPLICABLE.pop(_p, None)
+
+add("C09",
+    "CrossHair symbolic execution of Entity.response_args/pick_binding and the MetadataStore lookups with the consumer URL as a symbolic string (z3 decides equality with every registered endpoint)",
+    "For every AssertionConsumerServiceURL string of <= 44 chars (or none), index, ProtocolBinding and issuer (two registered SPs, unknown, padded, the IdP itself) the derived destination is an endpoint the requester's own configuration registers for the chosen binding and equals the requested URL, else the request is refused.",
+    "Trusted: CrossHair/z3; metadata store loaded from library-generated SP metadata outside the trace; expected endpoints taken from the SP configuration.",
+    "DESIGN.md 3/C09")
+add("C20",
+    "CrossHair symbolic execution of the xmlsec1 call sites (validate_signature/_run_xmlsec/parse_xmlsec_output, _check_signature cert loop, sign_statement, encrypt_assertion, decrypt_keys) against a process model whose return code, stdout, stderr and output file are symbolic",
+    "Every observable of a tool run is an arbitrary value (return code incl. signals, stdout, stderr as symbolic strings up to 4/6 chars, output file text, cannot start); verification returns True only when success was genuinely reported, signing/encryption with no result raise, decryption returns only genuinely produced text.",
+    "Trusted: CrossHair/z3; process boundary model (Popen, temp files); what a successful-looking run wrote is xmlsec1's responsibility.",
+    "DESIGN.md 3/C20")
+for _p in ("C09", "C20"):
+    NOT_APPLICABLE.pop(_p, None)
